@@ -65,6 +65,7 @@ import (
 	"fmt"
 	"io"
 	"os"
+	"strings"
 	"sync"
 
 	"github.com/stackus/goht"
@@ -168,6 +169,10 @@ func run(j jobT, e envT) (r resT) {
 		}
 		if errors.Is(err, io.ErrShortWrite) {
 			r.Err = "short:" + r.Err
+		}
+		if strings.Contains(err.Error(), errExpr.Error()) && !errors.Is(err, errExpr) {
+			// the text of the cause is there but the error does not wrap it (errors.Is / errors.As fail)
+			r.Err = "unwrapped:" + r.Err
 		}
 	}
 	r.Writes = w.writes
